@@ -8,6 +8,7 @@ import (
 
 	"github.com/go-faster/errors"
 
+	"github.com/gotd/td/telegram/updates"
 	"github.com/gotd/td/tg"
 )
 
@@ -148,6 +149,10 @@ type Server struct {
 	MaxCalls int
 	// OnChanDiff, if set, is called before a getChannelDifference call is answered.
 	OnChanDiff func(ch int64)
+	// OnSpawned, if set, is called (from a foreign goroutine) when a channel worker that the
+	// engine started on its own makes its channel-subscribe call; the call is then parked until
+	// the engine's context is cancelled.
+	OnSpawned func(ch int64)
 	// OnAnswer, if set, is called with every difference answer.
 	OnAnswer func(a Answer)
 }
@@ -225,6 +230,9 @@ func (s *Server) cover(seq string, p int) {
 
 // UpdatesGetDifference implements updates.API.
 func (s *Server) UpdatesGetDifference(ctx context.Context, req *tg.UpdatesGetDifferenceRequest) (tg.UpdatesDifferenceClass, error) {
+	if err := ctx.Err(); err != nil {
+		return nil, err
+	}
 	if err := s.call("updates.getDifference"); err != nil {
 		return nil, err
 	}
@@ -306,6 +314,19 @@ func (s *Server) UpdatesGetDifference(ctx context.Context, req *tg.UpdatesGetDif
 
 // UpdatesGetChannelDifference implements updates.API.
 func (s *Server) UpdatesGetChannelDifference(ctx context.Context, req *tg.UpdatesGetChannelDifferenceRequest) (tg.UpdatesChannelDifferenceClass, error) {
+	if updates.VerifOrigin(ctx) == "main" {
+		// The main loop never calls getChannelDifference itself: this is the Run goroutine that
+		// internalState.handleChannel started for a newly seen channel. Park it (the harness
+		// drives that channelState on its own thread) without touching the server's state.
+		if in, ok := req.Channel.(*tg.InputChannel); ok && s.OnSpawned != nil && ctx.Err() == nil {
+			s.OnSpawned(in.ChannelID)
+		}
+		<-ctx.Done()
+		return nil, ctx.Err()
+	}
+	if err := ctx.Err(); err != nil {
+		return nil, err
+	}
 	if err := s.call("updates.getChannelDifference"); err != nil {
 		return nil, err
 	}
